@@ -14,12 +14,14 @@ package main
 // (which live schemas share Bag / Checks array / Values with the result, and the result's slice header).
 
 import (
+	"encoding/json"
 	"flag"
 	"fmt"
 	"os"
 	"path/filepath"
 	"sort"
 	"strings"
+	"sync"
 
 	"verifharness/hx"
 	"verifharness/opsgen"
@@ -32,7 +34,8 @@ var (
 	genDir  = flag.String("gen", "", "translator mode: write MethodOps.lean into this directory and exit")
 	genRepo = flag.String("repo", "/repo", "library working tree read by the translator")
 	dumpOps = flag.Bool("dumpops", false, "translator mode: print the method table and exit")
-	objOnly = flag.Bool("objonly", false, "only the object-content histories (development)")
+	objOnly = flag.Bool("objonly", false, "only the object- and holder-content histories (development)")
+	workers = flag.Int("workers", 8, "base schemas run on this many workers (the output does not depend on it)")
 	focus   = flag.String("focus", "", "comma-separated Type.Method list: add the aimed histories (that method x every sibling fan-out)")
 )
 
@@ -105,6 +108,160 @@ func emit(h *storex.Hist, o *hx.Out, tag string) {
 	}
 }
 
+// runBase runs every history of one base schema into its own output.
+func runBase(c hx.Config, b storex.Base, rng *hx.Rng, want map[string]bool, o *hx.Out) []string {
+	reps := 1
+	if c.Thorough() {
+		reps = 4
+	}
+	probe := b.Mk()
+	methods := storex.Methods(probe)
+	sort.Strings(methods)
+	var seen []string
+	for _, m := range methods {
+		seen = append(seen, fmt.Sprintf("%T.%s", probe, m))
+	}
+	if len(want) > 0 {
+		focused(b, methods, want, o)
+	}
+	for rep := 0; rep < reps; rep++ {
+		for _, m := range methods {
+			for variant := 0; variant < 2; variant++ {
+				// A: directly on the fresh base, sibling fan-out, then on the result
+				h := storex.NewHist(b, true)
+				if h.StepL(0, m, variant, o) {
+					h.StepL(0, m, variant+1, o)
+					h.StepL(0, hx.Pick(rng, methods), rng.Intn(3), o)
+					last := len(h.Live) - 1
+					h.StepL(1, hx.Pick(rng, methods), rng.Intn(3), o)
+					h.StepL(last, m, variant, o)
+					emit(h, o, "A")
+				}
+				// B: after a random prefix
+				h = storex.NewHist(b, true)
+				for i := 0; i < 2+rng.Intn(3); i++ {
+					h.StepL(rng.Intn(len(h.Live)), hx.Pick(rng, methods), rng.Intn(3), o)
+				}
+				ri := rng.Intn(len(h.Live))
+				if h.StepL(ri, m, variant, o) {
+					h.StepL(ri, hx.Pick(rng, methods), rng.Intn(3), o)
+					h.StepL(rng.Intn(len(h.Live)), hx.Pick(rng, methods), rng.Intn(3), o)
+					if c.Thorough() {
+						for i := 0; i < 6; i++ {
+							h.StepL(rng.Intn(len(h.Live)), hx.Pick(rng, methods), rng.Intn(3), o)
+						}
+					}
+					emit(h, o, "B")
+				}
+			}
+		}
+		// D: ordered pairs of methods: m1 on the fresh base, an unrelated sibling of the result, then m2 on the
+		// result — the histories in which type-local reference state that m1 put into its result (key sets such as
+		// PartialExceptions, shapes, option lists) is handed on to, and written by, m2. Quick tier: every pair of
+		// methods that take a key list / map / shape argument (keyed variants), and a random sample of the other
+		// pairs; thorough tier: every ordered pair.
+		if rep == 0 {
+			keyed := storex.KeyedMethods(probe, methods)
+			for _, m1 := range methods {
+				for _, m2 := range methods {
+					both := keyed[m1] && keyed[m2]
+					if !both && !c.Thorough() && rng.Intn(40) != 0 {
+						continue
+					}
+					for v1 := 0; v1 < 2; v1++ {
+						for v2 := 0; v2 < 2; v2++ {
+							if !both && (v1 != v2) {
+								continue
+							}
+							h := storex.NewHist(b, true)
+							if !h.StepL(0, m1, v1, o) {
+								continue
+							}
+							h.StepL(1, hx.Pick(rng, methods), rng.Intn(3), o) // earlier sibling of what m2 derives
+							if h.StepL(1, m2, v2, o) {
+								emit(h, o, "D")
+							}
+						}
+					}
+				}
+			}
+		}
+		// C: long check chains crossing capacities, siblings at every boundary
+		for _, m := range methods {
+			h := storex.NewHist(b, true)
+			if !h.StepL(0, m, 0, o) || !strings.HasPrefix(h.Steps[0], "0 derive 1 ") {
+				continue
+			}
+			cur := 1
+			for n := 2; n <= 17; n++ {
+				if n == 2 || n == 3 || n == 5 || n == 9 || n == 17 || n == 4 {
+					h.StepL(cur, m, n, o) // sibling that is not continued
+				}
+				if !h.StepL(cur, m, n+1, o) {
+					break
+				}
+				cur = len(h.Live) - 1
+			}
+			emit(h, o, "C")
+			if !c.Thorough() && rng.Intn(3) != 0 {
+				break // quick tier: one or two chain methods per base
+			}
+		}
+	}
+	return seen
+}
+
+// mergePart re-emits the cases and counters of a finished part into the main output (in base order: the result does not
+// depend on how the parts were scheduled).
+func mergePart(dir string, o *hx.Out) error {
+	readLines := func(name string) ([]string, error) {
+		b, err := os.ReadFile(filepath.Join(dir, name))
+		if err != nil {
+			return nil, err
+		}
+		ls := strings.Split(string(b), "\n")
+		if len(ls) > 0 && ls[len(ls)-1] == "" {
+			ls = ls[:len(ls)-1]
+		}
+		return ls, nil
+	}
+	ops, err := readLines("ops.txt")
+	if err != nil {
+		return err
+	}
+	impl, err := readLines("impl.txt")
+	if err != nil {
+		return err
+	}
+	if len(ops) != len(impl) {
+		return fmt.Errorf("part %s: %d ops, %d observations", dir, len(ops), len(impl))
+	}
+	for i := range ops {
+		o.Emit(ops[i], impl[i])
+	}
+	raw, err := os.ReadFile(filepath.Join(dir, "stats.json"))
+	if err != nil {
+		return err
+	}
+	var st struct {
+		Histogram map[string]int `json:"histogram"`
+	}
+	if err := json.Unmarshal(raw, &st); err != nil {
+		return err
+	}
+	keys := make([]string, 0, len(st.Histogram))
+	for k := range st.Histogram {
+		keys = append(keys, k)
+	}
+	sort.Strings(keys)
+	for _, k := range keys {
+		for n := st.Histogram[k]; n > 0; n-- {
+			o.Count(k)
+		}
+	}
+	return os.RemoveAll(dir)
+}
+
 func run(c hx.Config) error {
 	o, err := hx.NewOut(c.OutDir)
 	if err != nil {
@@ -112,10 +269,6 @@ func run(c hx.Config) error {
 	}
 	rng := hx.NewRng(c.Seed)
 	bases := storex.Bases()
-	reps := 1
-	if c.Thorough() {
-		reps = 4
-	}
 	methodsSeen := map[string]bool{}
 	want := map[string]bool{}
 	for _, f := range strings.Split(*focus, ",") {
@@ -123,101 +276,44 @@ func run(c hx.Config) error {
 			want[f] = true
 		}
 	}
-	for _, b := range bases {
-		if *objOnly {
-			break
+	if !*objOnly {
+		// every base schema is an independent family of schemas: the bases run on a pool of workers, each into its own part
+		// with its own generator (seeded from the run's seed and the base's position), and the parts are merged in base order
+		type part struct {
+			dir  string
+			seen []string
+			err  error
 		}
-		probe := b.Mk()
-		methods := storex.Methods(probe)
-		sort.Strings(methods)
-		for _, m := range methods {
-			methodsSeen[fmt.Sprintf("%T.%s", probe, m)] = true
-		}
-		if len(want) > 0 {
-			focused(b, methods, want, o)
-		}
-		for rep := 0; rep < reps; rep++ {
-			for _, m := range methods {
-				for variant := 0; variant < 2; variant++ {
-					// A: directly on the fresh base, sibling fan-out, then on the result
-					h := storex.NewHist(b, true)
-					if h.StepL(0, m, variant, o) {
-						h.StepL(0, m, variant+1, o)
-						h.StepL(0, hx.Pick(rng, methods), rng.Intn(3), o)
-						last := len(h.Live) - 1
-						h.StepL(1, hx.Pick(rng, methods), rng.Intn(3), o)
-						h.StepL(last, m, variant, o)
-						emit(h, o, "A")
-					}
-					// B: after a random prefix
-					h = storex.NewHist(b, true)
-					for i := 0; i < 2+rng.Intn(3); i++ {
-						h.StepL(rng.Intn(len(h.Live)), hx.Pick(rng, methods), rng.Intn(3), o)
-					}
-					ri := rng.Intn(len(h.Live))
-					if h.StepL(ri, m, variant, o) {
-						h.StepL(ri, hx.Pick(rng, methods), rng.Intn(3), o)
-						h.StepL(rng.Intn(len(h.Live)), hx.Pick(rng, methods), rng.Intn(3), o)
-						if c.Thorough() {
-							for i := 0; i < 6; i++ {
-								h.StepL(rng.Intn(len(h.Live)), hx.Pick(rng, methods), rng.Intn(3), o)
-							}
-						}
-						emit(h, o, "B")
-					}
+		parts := make([]part, len(bases))
+		sem := make(chan struct{}, *workers)
+		var wg sync.WaitGroup
+		for i := range bases {
+			wg.Add(1)
+			go func(i int) {
+				defer wg.Done()
+				sem <- struct{}{}
+				defer func() { <-sem }()
+				dir := filepath.Join(c.OutDir, fmt.Sprintf("part-%03d", i))
+				po, err := hx.NewOut(dir)
+				if err != nil {
+					parts[i].err = err
+					return
 				}
+				parts[i].dir = dir
+				parts[i].seen = runBase(c, bases[i], hx.NewRng(c.Seed*1000003+uint64(i)), want, po)
+				parts[i].err = po.Close(nil)
+			}(i)
+		}
+		wg.Wait()
+		for i := range parts {
+			if parts[i].err != nil {
+				return parts[i].err
 			}
-			// D: ordered pairs of methods: m1 on the fresh base, an unrelated sibling of the result, then m2 on the
-			// result — the histories in which type-local reference state that m1 put into its result (key sets such as
-			// PartialExceptions, shapes, option lists) is handed on to, and written by, m2. Quick tier: every pair of
-			// methods that take a key list / map / shape argument (keyed variants), and a random sample of the other
-			// pairs; thorough tier: every ordered pair.
-			if rep == 0 {
-				keyed := storex.KeyedMethods(probe, methods)
-				for _, m1 := range methods {
-					for _, m2 := range methods {
-						both := keyed[m1] && keyed[m2]
-						if !both && !c.Thorough() && rng.Intn(40) != 0 {
-							continue
-						}
-						for v1 := 0; v1 < 2; v1++ {
-							for v2 := 0; v2 < 2; v2++ {
-								if !both && (v1 != v2) {
-									continue
-								}
-								h := storex.NewHist(b, true)
-								if !h.StepL(0, m1, v1, o) {
-									continue
-								}
-								h.StepL(1, hx.Pick(rng, methods), rng.Intn(3), o) // earlier sibling of what m2 derives
-								if h.StepL(1, m2, v2, o) {
-									emit(h, o, "D")
-								}
-							}
-						}
-					}
-				}
+			for _, m := range parts[i].seen {
+				methodsSeen[m] = true
 			}
-			// C: long check chains crossing capacities, siblings at every boundary
-			for _, m := range methods {
-				h := storex.NewHist(b, true)
-				if !h.StepL(0, m, 0, o) || !strings.HasPrefix(h.Steps[0], "0 derive 1 ") {
-					continue
-				}
-				cur := 1
-				for n := 2; n <= 17; n++ {
-					if n == 2 || n == 3 || n == 5 || n == 9 || n == 17 || n == 4 {
-						h.StepL(cur, m, n, o) // sibling that is not continued
-					}
-					if !h.StepL(cur, m, n+1, o) {
-						break
-					}
-					cur = len(h.Live) - 1
-				}
-				emit(h, o, "C")
-				if !c.Thorough() && rng.Intn(3) != 0 {
-					break // quick tier: one or two chain methods per base
-				}
+			if err := mergePart(parts[i].dir, o); err != nil {
+				return err
 			}
 		}
 	}
@@ -227,5 +323,11 @@ func run(c hx.Config) error {
 		nObj = 3000
 	}
 	runObjHistories(rng, o, nObj)
-	return o.Close(map[string]any{"bases": len(bases), "type_methods": len(methodsSeen), "object_content_histories": nObj})
+	// member-holding schemas at the level of content (holdhist.go)
+	nHold := 500
+	if c.Thorough() {
+		nHold = 4000
+	}
+	runHoldHistories(rng, o, nHold)
+	return o.Close(map[string]any{"bases": len(bases), "type_methods": len(methodsSeen), "object_content_histories": nObj, "holder_content_histories": nHold})
 }
